@@ -607,4 +607,97 @@ def resolve (m : Machine) (inp : Input) : Outcome :=
   | .error (.err e) => .error e
   | .error (.unsup w) => .unsupported w
 
+/-! ## quoting (C16f): the round trip of the arguments through the configuration registry
+
+`store_command_line` / `store_unregistered_options` write the command line into `pika.cmd_line`,
+`pika.commandline.options`, `pika.unknown_cmd_line` (each argument through `encode_and_enquote`) and the
+parsed options into `pika.reconstructed_cmd_line` (each value through `embed_in_quotes`);
+`handle_late_commandline_options` and `init_helper` split these strings again with `split_unix`
+(`boost::escaped_list_separator`, escape `\`, quotes `"` and `'`, separators blank and tab).
+`embedOld` / `encodeOld` are the functions of the pinned tree, `embedNew` / `encodeNew` those of the
+repaired tree (`fix:` commits on hooks-C16f).  Only the positional part of the reconstructed command line
+is modelled (the program name and the `--pika:` options in front of it are plain words). -/
+
+def isSepC (c : Char) : Bool := c == ' ' || c == '\t'
+def isQuoteC (c : Char) : Bool := c == '"' || c == '\''
+def isEscC (c : Char) : Bool := c == '\\'
+
+/-- `boost::escaped_list_separator` as used by `split_unix`; `none` = it throws (`unknown escape
+    sequence`, `cannot end with escape`) -/
+def splitU (q : Bool) (cur : List Char) : List Char → Option (List (List Char))
+  | [] => some [cur.reverse]
+  | c :: rest =>
+    if isEscC c then
+      match rest with
+      | [] => none
+      | d :: rest' =>
+        if d == 'n' then splitU q ('\n' :: cur) rest'
+        else if isEscC d || isQuoteC d || isSepC d then splitU q (d :: cur) rest'
+        else none
+    else if isSepC c then
+      (if q then splitU q (c :: cur) rest else (splitU false [] rest).map (cur.reverse :: ·))
+    else if isQuoteC c then splitU (!q) cur rest
+    else splitU q (c :: cur) rest
+
+/-- `split_unix`: empty tokens are dropped -/
+def splitUnix (s : List Char) : Option (List (List Char)) :=
+  (splitU false [] s).map (fun ts => ts.filter (fun t => !t.isEmpty))
+
+/-- a backslash in front of every escape and quote character -/
+def escQ : List Char → List Char
+  | [] => []
+  | c :: r => if isEscC c || isQuoteC c then '\\' :: c :: escQ r else c :: escQ r
+
+/-- an escaped value, wrapped in double quotes if `w` -/
+def wrapIf (w : Bool) (e : List Char) : List Char := if w then '"' :: (e ++ ['"']) else e
+
+/-- `embed_in_quotes` (parse_command_line.cpp) after the repair -/
+def embedNew (s : List Char) : List Char := wrapIf ((escQ s).any isSepC) (escQ s)
+
+/-- `encode_and_enquote` (command_line_handling.cpp) after the repair -/
+def encodeNew (s : List Char) : List Char := wrapIf ((escQ s).any (fun c => isSepC c || c == '"')) (escQ s)
+
+/-- `embed_in_quotes` of the pinned tree: no escaping, the quote character is chosen by looking for `"` -/
+def embedOld (s : List Char) : List Char :=
+  let quote := if s.any (· == '"') then '\'' else '"'
+  if s.any isSepC then quote :: (s ++ [quote]) else s
+
+/-- `encode_and_enquote` of the pinned tree: only `"` is escaped -/
+def encodeOld (s : List Char) : List Char :=
+  let e := s.flatMap (fun c => if c == '"' then ['\\', '"'] else [c])
+  if e.any (fun c => isSepC c || c == '"') then '"' :: (e ++ ['"']) else e
+
+/-- the tokens joined by single blanks, each behind a fixed prefix -/
+def joinWith (pre : List Char) (f : List Char → List Char) : List (List Char) → List Char
+  | [] => []
+  | [a] => pre ++ f a
+  | a :: b :: r => pre ++ f a ++ ' ' :: joinWith pre f (b :: r)
+
+/-- `--pika:positional=` -/
+def posPrefix : List Char :=
+  ['-', '-', 'p', 'i', 'k', 'a', ':', 'p', 'o', 's', 'i', 't', 'i', 'o', 'n', 'a', 'l', '=']
+
+def dropThroughEq : List Char → List Char
+  | [] => []
+  | c :: r => if c == '=' then r else dropThroughEq r
+
+/-- `init_helper`: tokens that are not pika options are kept, `--pika:positional=x` becomes `x`, other
+    pika options are dropped -/
+def helperArgs (tokens : List (List Char)) : List (List Char) :=
+  tokens.filterMap (fun t =>
+    if !(['-', '-', 'p', 'i', 'k', 'a', ':'].isPrefixOf t) then some t
+    else if ['p', 'o', 's', 'i', 't', 'i', 'o', 'n', 'a', 'l'].isPrefixOf (t.drop 7) && t.any (· == '=') then
+      some (dropThroughEq t)
+    else none)
+
+/-- what the entry function `f(int, char**)` receives (argv[1..]) when the positional arguments are `pos`
+    and the values are written with `embed`; `none` = `split_unix` throws -/
+def entryArgvVia (embed : List Char → List Char) (pos : List String) : Option (List String) :=
+  (splitUnix (joinWith posPrefix embed (pos.map (·.toList)))).map (fun ts => (helperArgs ts).map String.ofList)
+
+/-- the late command-line handling re-reads the arguments written with `encode`; `none` = it throws and
+    `pika::init` returns -1 -/
+def lateReparse (encode : List Char → List Char) (args : List String) : Option (List String) :=
+  (splitUnix (joinWith [] encode (args.map (·.toList)))).map (fun ts => ts.map String.ofList)
+
 end PikaVerif.Config
